@@ -279,6 +279,37 @@ def r5_5(rep):
                       (ty, (" (found %s: %s)" % (bad[0][1], b.canon(bad[0][0], 3)[:60])) if bad else ""), b.loc(c))
 
 
+    # the carrier of macro values: cexpr hands integers over as EvalResult::Int(Wrapping<i64>); C integer constants range over
+    # [-2^63, 2^64), and an expression of unsigned type (`~0u`) has an unsigned value
+    vp = rep.need(prog.impl_fn("parse::ClangSubItemParser", "ir::var::Var", "parse"), "<Var as ClangSubItemParser>::parse")
+    carriers = set()
+    for m in vp.walk():
+        if m["k"] != "Match":
+            continue
+        for a in m["arms"]:
+            if any(v == "cexpr::expr::EvalResult::Int" for v in pat_variants(a["pat"])):
+                def binds(p_):
+                    if p_.get("k") == "Bind":
+                        t = prog.types[p_["t"]] if p_.get("t") is not None else None
+                        if t:
+                            carriers.add(t.replace("&", ""))
+                    for q in p_.get("ps", []):
+                        binds(q)
+                    if isinstance(p_.get("p"), dict):
+                        binds(p_["p"])
+                    for f_ in p_.get("fs", []):
+                        binds(f_["p"])
+                    if isinstance(p_.get("sub"), dict):
+                        binds(p_["sub"])
+                binds(a["pat"])
+    rep.need(carriers, "the binding of cexpr's EvalResult::Int payload in Var::parse")
+    wide = {"i128", "std::num::Wrapping<i128>"}
+    rep.check(carriers <= wide, "macro-int-carrier:holds-u64-and-sign",
+              "macro integers arrive as %s" % sorted(carriers) if carriers <= wide else
+              "macro integers arrive as %s: a constant in [2^63, 2^64) or of unsigned type has already wrapped to a negative number before "
+              "bindgen chooses its type" % sorted(carriers), vp.loc(vp.root))
+
+
 class _FilteredReport:
     """Report proxy for rules shared from another property: instances recorded as known findings of THAT property are its
     business (they are printed by its own check) and are not re-reported here."""
